@@ -59,6 +59,8 @@ pub struct KnownFinding {
   pub status: String,
   pub signature: String,
   pub what: String,
+  /// the clauses the recorded defect is known to break; a failure of another clause is not covered
+  pub clauses: Vec<String>,
 }
 
 pub fn load_known_findings() -> Vec<KnownFinding> {
@@ -72,6 +74,7 @@ pub fn load_known_findings() -> Vec<KnownFinding> {
       status: f["status"].as_str().unwrap_or("").to_string(),
       signature: f["signature"].as_str().unwrap_or("").to_string(),
       what: f["what_fails"].as_str().unwrap_or("").to_string(),
+      clauses: f["clauses"].as_array().map(|a| a.iter().filter_map(|c| c.as_str().map(|s| s.to_string())).collect()).unwrap_or_default(),
     });
   }
   res
@@ -99,7 +102,7 @@ impl Ctx {
     let mut matched: Vec<(usize, u64)> = vec![]; // (index in known, count)
     for v in &o.violations {
       if v.property != self.id { continue; } // a check reports only its own property
-      let hit = v.signature.as_ref().and_then(|sig| known.iter().position(|k| k.status == "open" && k.property == v.property && &k.signature == sig));
+      let hit = v.signature.as_ref().and_then(|sig| known.iter().position(|k| k.status == "open" && k.property == v.property && &k.signature == sig && (k.clauses.is_empty() || k.clauses.contains(&v.clause))));
       match hit {
         Some(i) => { if let Some(m) = matched.iter_mut().find(|m| m.0 == i) { m.1 += v.count; } else { matched.push((i, v.count)); } }
         None => unlisted.push(v),
